@@ -107,6 +107,12 @@ def check_case(case):
         label, ver, clsname, base, prop, prec, cons = [s for s in SLOTS if s[0] == route][0]
         cls = getattr(_mod(ver), clsname)
         kw = dict(base)
+        tag = case.get("stixdt_tags")
+        if tag and isinstance(val, dt.datetime):
+            # an un-normalised STIXdatetime carrying precision tags (e.g. another property's value): the slot must re-clean it
+            tp = prec if tag[0] == "same" else tag[0]
+            tc = cons if tag[1] == "same" else ("min" if cons == "exact" else "exact") if tag[1] == "other" else tag[1]
+            val = utils.STIXdatetime(val, precision=tp, precision_constraint=tc)
         kw[prop] = val
         obj, exc = core.guarded(cls, **kw)
         if exc is not None:
@@ -221,6 +227,8 @@ def slot_case(draw):
     slot = draw(st.sampled_from(SLOTS))
     c["route"] = slot[0]
     c["precision"], c["constraint"] = slot[5], slot[6]
+    if c["form"] == "datetime" and draw(st.booleans()):
+        c["stixdt_tags"] = draw(st.sampled_from([["same", "same"], ["same", "other"], ["any", "exact"], ["millisecond", "min"], ["second", "min"], ["millisecond", "exact"]]))
     return c
 
 
@@ -273,6 +281,8 @@ def classes_of(c):
         cl.append("us:millis")
     tz = c.get("tz")
     cl.append("tz:" + ("naive" if tz is None else "zone" if isinstance(tz, dict) else "utc" if tz in (0, "pytz-utc") else "offset"))
+    if c.get("stixdt_tags"):
+        cl.append("stixdt-tagged:%s/%s" % tuple(c["stixdt_tags"]))
     return cl
 
 
